@@ -172,6 +172,14 @@ def gm_cases(rng, n, ctx, tag='gm', nmax=60):
             kw = random_params(rng, o, kinds)
             cid = '%s-%04d-%s-N%d' % (tag, i, '+'.join(kinds), o.N)
             cases.append(gm_case(cid, o, kw))
+            # history: right afterwards an observable on TWIN lists (same chains, lengths, first and last configurations, other holes) is analysed with
+            # the same request - nothing computed for the first one may be reused for the second
+            if not o.cov_names and len(o.mc_names) == 1 and any(isinstance(o.idl[c], list) for c in o.names):
+                tw = {c: (gen.twin_list(o.idl[c]) if isinstance(o.idl[c], list) else o.idl[c]) for c in o.names}
+                if all(v is not None for v in tw.values()) and any(list(tw[c]) != list(o.idl[c]) for c in o.names):
+                    o2 = pe.Obs([gen.chain_data(rng, len(tw[c]), mean=1.0, sigma=0.1, tau=float(rng.choice([0, 2.0, 4.0]))) for c in o.names], list(o.names), idl=[tw[c] for c in o.names])
+                    if all(type(o2.idl[c]) is type(o.idl[c]) for c in o.names):
+                        cases.append(gm_case(cid + '-twin', o2, kw))
             ctx.nontrivial.add((tuple(kinds), o.N, tuple(sorted(kw.items())), len(o.names)))
             ctx.sample({'id': cid, 'chains': [(c, str(o.idl[c])[:60]) for c in o.names if c in o.idl], 'kwargs': {k: v for k, v in kw.items()},
                         'S_global': pe.Obs.S_global, 'S_dict': dict(pe.Obs.S_dict), 'tau_exp_global': pe.Obs.tau_exp_global})
